@@ -242,6 +242,18 @@ func (r *vResult) inconclusive(why string) {
 	fmt.Fprintf(os.Stderr, "VERIF-INCONCLUSIVE %s: %s\n", r.Property, why)
 }
 
+// giveUp tells a workload loop to stop early: many different things are going wrong (a broken tree), or one thing
+// floods. A few shapes hit again and again (recorded findings hit by a long run) do not stop the run.
+func (r *vResult) giveUp(limit int) bool {
+	r.mu.Lock()
+	defer r.mu.Unlock()
+	shapes := map[string]bool{}
+	for _, v := range r.Violations {
+		shapes[v.Rule+"|"+v.Shape] = true
+	}
+	return len(shapes) > 12 && r.totalViol > limit || r.totalViol > 60*limit
+}
+
 func (r *vResult) nViol() int {
 	r.mu.Lock()
 	defer r.mu.Unlock()
